@@ -12,14 +12,14 @@
 EXTENDS JqCore
 
 CONSTANTS Deep,   \* FALSE: members of U1 are scalars; TRUE: members are drawn from U0
-          Small   \* TRUE: 8 scalars instead of 12 (quick tier)
+          Small   \* TRUE: 7 scalars instead of 12 (quick tier)
 
 VARIABLES ph, x, y, z
 vars == <<ph, x, y, z>>
 
 Atom15 == [t |-> "num", n |-> 1, fr |-> 524289, a |-> <<49, 46, 53>>]
 Atom10 == [t |-> "num", n |-> 1, fr |-> 0, a |-> <<49, 46, 48>>]
-Scal == IF Small THEN {Null, Bool(FALSE), Bool(TRUE), NumI(0), NumI(1), Atom15, Str(<<>>), Str(<<97>>)}
+Scal == IF Small THEN {Null, Bool(FALSE), Bool(TRUE), NumI(0), Atom15, Str(<<>>), Str(<<97>>)}
         ELSE {Null, Bool(FALSE), Bool(TRUE), NumI(-1), NumI(0), NumI(1), NumI(2), Atom15, Atom10,
               Str(<<>>), Str(<<97>>), Str(<<98>>)}
 Keys == {<<97>>, <<98>>}
